@@ -230,6 +230,8 @@ def judge_cell(ctx, rec, exc, ignored):
         return
     if M.kind == 'ERR':
         raise vf.Infra('oracle error on %s: %s' % (c.body()[:200], M.line[:200]))
+    if M.guard is False:
+        viol(ctx, 'model.range-guard', 'ScalePaths range test passed but a NaN-free coordinate converts outside +-2^61 (model level): %s' % c.body()[:300], replay=rp)
     # success clause: every Execute that ran returned true
     for r in (D, rec.get('IM')):
         if r is not None and r.kind == 'OK' and r.ret == 0:
